@@ -562,10 +562,92 @@ func rolloverIsolation(res *core.Result, r *rand.Rand, wraps1, wraps2 int) {
 	res.Case(fmt.Sprintf("rollover-isolation|%d|%d|%d", wraps1, wraps2, r.IntN(1<<30)), true)
 }
 
+// rekeyRoundTrip: two routers that have exchanged traffic run the end-to-end key setup again the way the hello
+// ping does it - the initiator completes the exchange in a fresh, detached encryption session and swaps it in,
+// the responder re-keys the session object it has been using. Every frame sealed under the new keys must make the
+// exact round trip, in both directions and both classes, from the first one on.
+func rekeyRoundTrip(res *core.Result, r *rand.Rand, history int) {
+	p := env.NewPair(r, "c02 rekey")
+	trip := func(from, to *env.Instance, sf, st *state.Session, mt frame.MessageType, what string) bool {
+		payload := core.RandBytes(r, 24+r.IntN(100))
+		f, err := from.BuilderV.NewFrameV1(from.IdentityV.IP, to.IdentityV.IP, mt, nil, payload, nil)
+		if err != nil {
+			return true
+		}
+		if err := f.Seal(sf); err != nil {
+			f.ReturnToPool()
+			res.Violate("seal-failed:after-rekey", fmt.Sprintf("%s: sealing failed: %v", what, err), map[string]any{"case_id": "rekey"})
+			return false
+		}
+		d, _ := f.FrameDataWithMargins(0, 0)
+		data := append([]byte(nil), d...)
+		f.ReturnToPool()
+		g, err := to.BuilderV.ParseFrame(data, nil, 0)
+		if err != nil {
+			return true
+		}
+		defer g.ReturnToPool()
+		if err := g.Unseal(st); err != nil {
+			res.Violate("roundtrip-fails:after-rekey", fmt.Sprintf("%s (type %d): a frame sealed by its sender does not unseal at its receiver: %v", what, mt, err), map[string]any{"case_id": "rekey", "history": history})
+			return false
+		}
+		if !bytes.Equal(g.MessageData(), payload) {
+			res.Violate("roundtrip-differs:after-rekey", what+": payload differs after the round trip", map[string]any{"case_id": "rekey"})
+			return false
+		}
+		return true
+	}
+	both := func(n int, what string) bool {
+		for i := 0; i < n; i++ {
+			mt := []frame.MessageType{frame.SessionData, frame.RouterCtrl, frame.NetworkTraffic}[i%3]
+			if !trip(p.A, p.B, p.AB, p.BA, mt, fmt.Sprintf("%s, A->B frame %d", what, i)) || !trip(p.B, p.A, p.BA, p.AB, mt, fmt.Sprintf("%s, B->A frame %d", what, i)) {
+				return false
+			}
+		}
+		return true
+	}
+	if !both(history, "before any re-key") {
+		return
+	}
+	for round := 0; round < 3; round++ {
+		// initiator and responder swap roles every round
+		init, resp := p.AB, p.BA
+		if round%2 == 1 {
+			init, resp = p.BA, p.AB
+		}
+		fresh := state.NewEncryptionSession()
+		kx, kxt, err := fresh.InitKeyClientStart()
+		if err != nil {
+			res.Inconcl("rekey: %v", err)
+			return
+		}
+		kx2, kxt2, err := resp.Encryption().InitKeyServer(kx, kxt)
+		if err != nil {
+			res.Inconcl("rekey server: %v", err)
+			return
+		}
+		if err := fresh.InitKeyClientComplete(kx2, kxt2); err != nil {
+			res.Inconcl("rekey complete: %v", err)
+			return
+		}
+		init.SetEncryptionSession(fresh)
+		if !both(20+r.IntN(60), fmt.Sprintf("after key setup %d (%d frames each way before it)", round+2, history)) {
+			return
+		}
+	}
+	res.Count("rekey_round_trip_runs", 1)
+	res.Case(fmt.Sprintf("rekey|%d", history), true)
+}
+
 func run(c *core.Ctx) {
 	res := c.Res
 	for i := 0; i < c.Q(9, 63); i++ {
 		rolloverIsolation(res, core.RNG(fmt.Sprintf("c02/rollover/%d", i)), 1+i%3, 1+(i/3)%3)
+	}
+	for i, h := range []int{0, 3, 63, 64, 65, 70, 200, 400} {
+		if i < c.Q(8, 8) {
+			rekeyRoundTrip(res, core.RNG(fmt.Sprintf("c02/rekey/%d", i)), h)
+		}
 	}
 	const W = 16
 	n := c.Q(210, 1260)
